@@ -229,7 +229,72 @@ def make_cases(ctx, abiname, abi):
 SPS = [0x7FFF0000 + d for d in (0, 1, 4, 8, 12, 15)] + [0x7FFF0000 - 16 * 5]
 
 
+def check_leaf(ctx, g):
+    """which functions count as 'may be a leaf' (rewriting.py, not abi.py): a function without a Call edge - whatever
+    else it has: syscalls, indirect jumps, returns - may have live data below its stack pointer, so a patch that
+    pushes must first step over the red zone on x86-64 ELF"""
+    import logging
+
+    import capstone
+    import gtirb
+    import gtirb_functions
+    from gtirb_test_helpers import add_code_block, add_edge, add_function, add_proxy_block, add_text_section, create_test_module
+
+    from gtirb_rewriting import Constraints, Patch, RewritingContext, patch_constraints
+
+    logging.disable(logging.CRITICAL)
+    ctx.case(g, sample=g if len(ctx.samples) < 8 else None, nontrivial=True)
+    ctx.count("leaf:" + g["kind"])
+    ir, m = create_test_module(gtirb.Module.FileFormat.ELF, gtirb.Module.ISA.X64, binary_type=["DYN"])
+    _, bi = add_text_section(m, address=0x1000)
+    ET = gtirb.Edge.Type
+    if g["kind"] == "syscall":
+        b1 = add_code_block(bi, b"\xb8\x27\x00\x00\x00\x0f\x05")        # mov eax, 39; syscall
+        b2 = add_code_block(bi, b"\xc3")
+        add_edge(ir.cfg, b1, add_proxy_block(m), ET.Syscall)
+        add_edge(ir.cfg, b1, b2, ET.Fallthrough)
+        blocks = [b1, b2]
+    elif g["kind"] == "ijmp":
+        b1 = add_code_block(bi, b"\x90\xff\xe0")                           # nop; jmp rax
+        add_edge(ir.cfg, b1, add_proxy_block(m), ET.Branch, direct=False)
+        blocks = [b1]
+    elif g["kind"] == "plain":
+        b1 = add_code_block(bi, b"\x90\x90")
+        b2 = add_code_block(bi, b"\xc3")
+        add_edge(ir.cfg, b1, b2, ET.Fallthrough)
+        blocks = [b1, b2]
+    else:                                                                  # a real call: not a leaf
+        b1 = add_code_block(bi, b"\x90\xe8\x00\x00\x00\x00")
+        b2 = add_code_block(bi, b"\xc3")
+        add_edge(ir.cfg, b1, add_proxy_block(m), ET.Call)
+        add_edge(ir.cfg, b1, b2, ET.Fallthrough)
+        blocks = [b1, b2]
+    add_edge(ir.cfg, blocks[-1], add_proxy_block(m), ET.Return) if g["kind"] != "ijmp" else None
+    add_function(m, "f", blocks[0], set(blocks[1:]))
+
+    @patch_constraints(clobbers_registers={"rax"})
+    def p(ictx):
+        return "movl $%d, %%eax" % 0x5a5a5a
+
+    rc = RewritingContext(m, gtirb_functions.Function.build_functions(m))
+    rc.insert_at(blocks[0], 0, Patch.from_function(p))
+    rc.apply()
+    text = b"".join(bytes(x.contents) for x in sorted(m.byte_intervals, key=lambda x: x.address))
+    md = capstone.Cs(capstone.CS_ARCH_X86, capstone.CS_MODE_64)
+    ins = [(i.mnemonic, i.op_str) for i in md.disasm(text, 0x1000)]
+    first_push = next((k for k, (mn, _) in enumerate(ins) if mn.startswith("push")), None)
+    marker = next((k for k, (mn, op) in enumerate(ins) if mn == "mov" and "0x5a5a5a" in op), None)
+    if first_push is None or marker is None or first_push > marker:
+        ctx.mismatch("the patch's prologue could not be located in %s" % (ins[:8],), g)
+        return
+    skipped = any(mn == "lea" and "rsp" in op and "- 0x80" in op for mn, op in ins[:first_push])
+    if g["kind"] != "call" and not skipped:
+        ctx.violation("C16:leaf:red-zone", "function without a call (%s): the patch pushes at rsp-8 without stepping over the red zone first: %s" % (g["kind"], ins[:6]), g)
+
+
 def run(ctx):
+    for k in range(ctx.budget(8, 40)):
+        check_leaf(ctx, {"leaf_case": True, "kind": ["syscall", "ijmp", "plain", "call"][k % 4]})
     abis = _abi_objs()
     pending = []
     for abiname in ABIS:
@@ -304,6 +369,9 @@ def flush(ctx, pending):
 
 def replay(ctx, payload):
     case = payload.get("case", payload)
+    if case.get("leaf_case"):
+        check_leaf(ctx, case)
+        return
     abis = _abi_objs()
     abi = abis[case["abi"]]
     impl = run_impl(abi, case)
